@@ -65,5 +65,48 @@ pub fn dump_facts() {
         }
     }
 }
-pub fn dbopen(_args: &[String]) {}
+fn answer_line(db: &Db, q: &str) -> String {
+    match anything::verif::lookup(db, q) {
+        Ok(Some(c)) => format!(
+            "A {} {} {} {}",
+            hex_encode(c.description.as_bytes()),
+            rat(&c.value),
+            unit_canon(&c.unit),
+            c.tokens
+                .iter()
+                .map(|t| hex_encode(t.as_bytes()))
+                .collect::<Vec<_>>()
+                .join(";")
+        ),
+        Ok(None) => "A NONE".to_string(),
+        Err(_) => "A ERR".to_string(),
+    }
+}
+
+/// `dbopen mem|disk <queryfile>`: open the database (on disk under the current
+/// XDG_DATA_HOME, honouring ANYTHING_VERIF_CRASH) and answer the queries of the file
+/// (one hex phrase per line).
+pub fn dbopen(args: &[String]) {
+    let db = match args[0].as_str() {
+        "mem" => Db::in_memory(),
+        _ => Db::open(),
+    };
+    let db = match db {
+        Ok(db) => db,
+        Err(e) => {
+            println!("OPENERR {}", e.to_string().replace('\n', " "));
+            return;
+        }
+    };
+    println!("OPENED");
+    let qs = std::fs::read_to_string(&args[1]).unwrap_or_default();
+    let out = std::io::stdout();
+    let mut out = std::io::BufWriter::new(out.lock());
+    use std::io::Write;
+    for l in qs.lines() {
+        let q = String::from_utf8(hex_decode(l.trim())).unwrap();
+        writeln!(out, "{}", answer_line(&db, &q)).unwrap();
+    }
+}
+
 pub fn topk(_args: &[String]) {}
